@@ -747,6 +747,11 @@ impl Scenario for GlobalDetach {
             if t == 0 {
                 for round in 0..(1 + rng.below(3)) {
                     ops.push(json!({"op":"attach","g":0,"dest":20 + round,"queue":true,"stream": rng.chance(0.3)}));
+                    if rng.chance(0.3) {
+                        // a second attach while attached: documented to panic, and the first sink
+                        // must still be detachable (drained, flushed, closed) afterwards
+                        ops.push(json!({"op":"attach","g":0,"dest":40 + round,"queue":false}));
+                    }
                     for _ in 0..rng.below(4) {
                         let id = next_id;
                         next_id += 1;
@@ -775,7 +780,7 @@ impl Scenario for GlobalDetach {
     fn run(&self, plan: &Value) -> Report {
         let mut r = GlobalRouting.run(plan);
         if let Some(v) = &r.violation {
-            let shutdown_class = matches!(v.class.as_str(), "detach_did_not_shut_down" | "detach_lost_entry" | "detach_without_flush" | "deadlock" | "accepted_entry_lost" | "attach_panic_mismatch");
+            let shutdown_class = matches!(v.class.as_str(), "detach_did_not_shut_down" | "detach_lost_entry" | "detach_without_flush" | "deadlock" | "accepted_entry_lost" | "attach_panic_mismatch" | "global_damaged");
             if !shutdown_class {
                 r.violation = None;
             }
